@@ -869,6 +869,7 @@ KERNEL_INV = ["ExactlyOneReplyPerValidRequest", "ReplyCorrelated", "AllSigned", 
 TAGS_ALL = ["ok", "stmt", "print", "err", "perr", "syntax", "complete_request", "is_complete_request", "kernel_info_request",
             "forged-key", "forged-sig", "forged-content"]
 TAGS_CORE = ["ok", "print", "perr", "kernel_info_request", "forged-sig"]
+TAGS_SEQ = ["ok", "err", "print", "perr", "complete_request", "is_complete_request", "kernel_info_request", "forged-sig"]
 
 
 def zmtp_cfg(maxlen, maxframes, chunks, cmd, invs):
@@ -876,9 +877,9 @@ def zmtp_cfg(maxlen, maxframes, chunks, cmd, invs):
             % (maxlen, maxframes, chunks, "TRUE" if cmd else "FALSE")) + "".join("INVARIANT %s\n" % i for i in invs) + "CHECK_DEADLOCK FALSE\n"
 
 
-def kernel_cfg(mech, maxreqs, tags, two, stores, invs):
-    return ("SPECIFICATION Spec\nCONSTANTS Mech = \"%s\"\n SessionKey = \"K\"\n MaxReqs = %d\n Tags = {%s}\n TwoClients = %s\n Stores = {%s}\n"
-            % (mech, maxreqs, ", ".join('"%s"' % t for t in tags), "TRUE" if two else "FALSE", ", ".join(stores))
+def kernel_cfg(mech, maxreqs, tags, two, stores, invs, pipelining=True):
+    return ("SPECIFICATION Spec\nCONSTANTS Mech = \"%s\"\n SessionKey = \"K\"\n MaxReqs = %d\n Tags = {%s}\n TwoClients = %s\n Stores = {%s}\n Pipelining = %s\n"
+            % (mech, maxreqs, ", ".join('"%s"' % t for t in tags), "TRUE" if two else "FALSE", ", ".join(stores), "TRUE" if pipelining else "FALSE")
             ) + "".join("INVARIANT %s\n" % i for i in invs) + "CHECK_DEADLOCK FALSE\n"
 
 
@@ -912,8 +913,8 @@ def mc_tasks(ctx):
                   kernel_cfg("spec", 3, ["ok", "perr", "forged-sig"], True, ["TRUE"], KERNEL_INV), "holds", 6))
         T.append(("Kernel spec, <=4 requests, error+print / kernel_info / forged", "Kernel",
                   kernel_cfg("spec", 4, ["perr", "kernel_info_request", "forged-sig"], False, ["TRUE"], KERNEL_INV), "holds", 8))
-        T.append(("Kernel spec, <=4 requests, ok / print / error+print", "Kernel",
-                  kernel_cfg("spec", 4, ["ok", "print", "perr"], False, ["TRUE"], KERNEL_INV), "holds", 8))
+        T.append(("Kernel spec, <=4 requests, 8 request kinds, clients wait for quiescence", "Kernel",
+                  kernel_cfg("spec", 4, TAGS_SEQ, False, ["TRUE"], KERNEL_INV, pipelining=False), "holds", 8))
         n = 3
     tags_n = TAGS_ALL if q else [t for t in TAGS_ALL if t not in ("stmt", "complete_request", "is_complete_request", "forged-key")]
     rest = [i for i in KERNEL_INV if i != "StdoutAttributed"]
@@ -942,8 +943,12 @@ def run_mc(ctx, tasks, results, par=5):
             open(cfg, "w").write(cfgtext)
             try:
                 results[label] = tlc.run(spec, cfg, d, workers=workers, timeout=3400)
+                r = results[label]
+                print("   [C19 model run] %s: %s, %d distinct / %d generated states, %.0f s" % (
+                    label, "no invariant violated" if r.ok else "VIOLATES " + r.violated, r.distinct, r.generated, r.wall), flush=True)
             except BaseException as e:  # noqa: B902
                 results[label] = e
+                print("   [C19 model run] %s: FAILED %s" % (label, str(e)[:300]), flush=True)
 
     ths = [threading.Thread(target=go, args=(k, t)) for k, t in enumerate(tasks)]
     for t in ths:
